@@ -5,6 +5,38 @@
 // so that there is no effect with NDEBUG
 #if defined(WITH_SYMENGINE_ASSERT)
 
+#if defined(SYMENGINE_VERIF) && defined(WITH_SYMENGINE_ASSERT)
+// Verification hook H1: a failed SYMENGINE_ASSERT throws a catchable
+// exception instead of calling abort(), so that one process can attribute a
+// canonical-form violation to the exact API call and keep exploring.
+#include <stdexcept>
+#include <string>
+namespace SymEngine
+{
+class VerifAssertionError : public std::logic_error
+{
+public:
+    VerifAssertionError(const char *file, int line, const char *cond)
+        : std::logic_error(std::string("SYMENGINE_ASSERT failed: ") + file
+                           + ":" + std::to_string(line) + ": " + cond)
+    {
+    }
+};
+} // namespace SymEngine
+#define SYMENGINE_ASSERT(cond)                                                 \
+    {                                                                          \
+        if (!(cond)) {                                                         \
+            throw ::SymEngine::VerifAssertionError(__FILE__, __LINE__, #cond); \
+        }                                                                      \
+    }
+#define SYMENGINE_ASSERT_MSG(cond, msg)                                        \
+    {                                                                          \
+        if (!(cond)) {                                                         \
+            throw ::SymEngine::VerifAssertionError(__FILE__, __LINE__, #cond); \
+        }                                                                      \
+    }
+#endif // SYMENGINE_VERIF && WITH_SYMENGINE_ASSERT
+
 #if !defined(SYMENGINE_ASSERT)
 #define stringize(s) #s
 #define XSTR(s) stringize(s)
